@@ -109,16 +109,17 @@ template <class Q, bool B> static int run(int argc, char** argv) {
         for (int r = 0; r < n && st.stuck < 10; r++) run_one<Q, B>(cap, seed0 + r, dens[r % 8], false, st);
         TR.close();
     } else {
-        std::string kind = argv[5]; int kmax = atoi(argv[6]);
+        std::string kind = argv[5]; int kmax = atoi(argv[6]); int nsd = 3;
+        { size_t star = kind.find('*'); if (star != std::string::npos) { nsd = atoi(kind.c_str() + star + 1); kind = kind.substr(0, star); } }    // "ctor*200": 200 schedules per fault position (concurrent post-fault programs)
         FILE* out = fopen(argv[7], "w"); bool first = true;
-        for (int k = 1; k <= kmax; k++) for (int sd = 0; sd < 3; sd++) {
+        for (int k = 1; k <= kmax; k++) for (int sd = 0; sd < nsd; sd++) {
             char tmp[256]; snprintf(tmp, sizeof tmp, "%s.child", argv[7]);
             pid_t pid = fork();
             if (pid == 0) {
                 alarm(60);
                 TR.open(tmp); setvbuf(TR.f, nullptr, _IOLBF, 0);
                 if (kind == "alloc") g_fail_alloc = k; else if (kind == "assign") g_fail_assign = k; else g_fail_copy = k;
-                run_one<Q, B>(cap, 77 + sd, sd == 0 ? 0 : dens[sd], true, st);
+                run_one<Q, B>(cap, 77 + sd, sd == 0 ? 0 : dens[sd % 8], true, st);
                 TR.close(); _exit(0);
             }
             int status = 0; waitpid(pid, &status, 0);
